@@ -626,7 +626,8 @@ func famAdmRoute(t *testing.T, r *Rec) {
 			lines := []string{c.line(a.spec, csvHex(app[0]), csvHex(app[1]))}
 			base := strings.TrimSuffix(a.engine, "/")
 			paths := []string{base + "/", base, base + "/x", base + "//", base + "/./", base + "/../" + strings.TrimPrefix(base, "/") + "/",
-				"/" + base + "/", strings.ToUpper(base) + "/", base + "x/", "/", "/static/app.js", base + "/admin/", base + "/admin/x", "/other", base + "/a/../"}
+				"/" + base + "/", strings.ToUpper(base) + "/", base + "x/", "/", "/static/app.js", base + "/admin/", base + "/admin/x", "/other", base + "/a/../",
+				base + "/.", base + "/..", base + "/x/..", base + "/x/.", base + "/./.", "/..", "/."}
 			var exp []string
 			// the routing rule is about the cleaned path whatever the method: repeat a few paths as CONNECT / POST
 			methods := make([]string, len(paths))
